@@ -31,8 +31,8 @@ ASSUMPTIONS = [
     "(only then do cuts given by Cartesian coordinate select, on the reduced image, the data that matrix indices select)",
 ]
 FLOORS = {
-    "quick": {"integer_typed_origin": 2, "slice_by_name_after_move": 20, "slice_at_faces_and_off_centre": 200, "reduced_image_keeps_lower_corner": 60, "table_row": 48, "there_and_back": 12, "name_equals_index": 150, "layout_places_voxels": 80, "layout_inverse": 80},
-    "thorough": {"integer_typed_origin": 10, "slice_by_name_after_move": 100, "slice_at_faces_and_off_centre": 1000, "reduced_image_keeps_lower_corner": 300, "table_row": 48, "there_and_back": 12, "name_equals_index": 700, "layout_places_voxels": 400, "layout_inverse": 400},
+    "quick": {"negative_axis_tried": 60, "slice_object_reused": 100, "integer_typed_origin": 2, "slice_by_name_after_move": 20, "slice_at_faces_and_off_centre": 200, "reduced_image_keeps_lower_corner": 60, "table_row": 48, "there_and_back": 12, "name_equals_index": 150, "layout_places_voxels": 80, "layout_inverse": 80},
+    "thorough": {"negative_axis_tried": 300, "slice_object_reused": 500, "integer_typed_origin": 10, "slice_by_name_after_move": 100, "slice_at_faces_and_off_centre": 1000, "reduced_image_keeps_lower_corner": 300, "table_row": 48, "there_and_back": 12, "name_equals_index": 700, "layout_places_voxels": 400, "layout_inverse": 400},
 }
 
 
@@ -173,6 +173,20 @@ def run_shard(spec, R):
                 if not ok_i:
                     continue
                 R.check(np.array_equal(by_i.img, want), "slice_is_take_along_axis", {"fn": "Image.slice", "dim": dim, "index": m, "t": t, "shape": list(shape)})
+                # a matrix axis counted from the end (numpy's negative indices) is either refused or means that axis
+                ok_neg, by_neg = R.guarded("slice_by_negative_index", lambda: img.slice(t, m - dim), unsupported=(Exception,))
+                if ok_neg:
+                    R.check(np.array_equal(by_neg.img, want), "slice_is_take_along_axis", {"fn": "Image.slice", "dim": dim, "index": m - dim, "t": t, "shape": list(shape), "what": "negative matrix axis accepted"})
+                R.count("negative_axis_tried")
+                # one reduction object in slice mode serves several images (here: the same image twice, by name and index)
+                if dim > 1:
+                    for ax_arg in (m, name):
+                        ok_o, duo = R.guarded("reduce_slice_object_reused", lambda: (lambda ar_: (ar_(img), ar_(img)))(darsia.AxisReduction(axis=ax_arg, dim=dim, mode="slice", slice_idx=t)))
+                        if ok_o:
+                            R.check(np.array_equal(duo[0].img, want) and np.array_equal(duo[1].img, want), "slice_is_take_along_axis",
+                                    {"fn": "AxisReduction(mode=slice) applied twice", "dim": dim, "axis": ax_arg, "t": t, "shape": list(shape)},
+                                    key="C20:reduce_axis_slice_mode_moves_wrong_axis" if (dim == 3 and m == 2) else None, group="object_reused")
+                            R.count("slice_object_reused")
                 # the same slice addressed through the Cartesian name: coordinate of the voxel centre
                 centre = np.array([0.5] * dim)
                 centre[m] = t + 0.5
